@@ -266,6 +266,12 @@ def build(P):
         pos.append(len(lines))
         return pos
 
+    NAMES = {"break": ["break"], "continue": ["continue"], "elseif": ["else if", "elseif", "else-if"], "cast": ["cast"],
+             "assign": ["assign", "undeclared", "undefined", "declar"], "input": ["input", "undeclared", "undefined", "declar"]}
+    def names_construct(construct, text):
+        t = text.lower()
+        return any(w in t for w in NAMES[construct])
+
     c20_memo = {}
     def c20_oracle(c, r, m):
         k = c.meta.get("kind")
@@ -288,7 +294,7 @@ def build(P):
                 return []     # the program itself fails before it could reach the inserted statement
             if not (r.exit == 1 and len(r.diags) == 1 and r.diags[0].kind == "pedantic"):
                 msgs.append("inserted %s: expected exactly one pedantic error, got exit %d, diagnostics %r" % (c.meta["construct"], r.exit, [d.kind for d in r.diags]))
-            elif r.diags[0].msg != c.meta["msg"]:
+            elif not names_construct(c.meta["construct"], r.diags[0].text):
                 msgs.append("pedantic error does not name the construct %s: %r" % (c.meta["construct"], r.diags[0].text))
             elif c.meta["when"] in ("lex", "parse"):
                 import core
